@@ -608,7 +608,7 @@ pub fn run(cfg: &RunCfg, out: &Out) {
 fn scenario(seed: u64, k: u64, out: &Out) {
     let mut rng = Rng::new(seed);
     let (now, base_ts) = time_base();
-    let mut params = gen_params(&mut rng, seed, base_ts);
+    let mut params = gen_params_with_jumps(&mut rng, seed, base_ts);
     if rng.chance(1, 2) {
         params.pow = PowKind::Dummy; // lets extreme difficulties pass the PoW gate
     }
